@@ -24,6 +24,19 @@ func trimStack(b []byte) string {
 	return strings.Join(out, "\n")
 }
 
+// AnalysedHalts: panics inside BeginBlock/EndBlock (chain halts) that were traced
+// to code owned by the Cosmos SDK, not by Haqq, and that no listed property
+// speaks about. A run that hits one ends there; any other halt stays a harness
+// error (exit 2) until it has been analysed.
+var AnalysedHalts = []string{"destination validator not found"}
+
+func firstLine(s string) string {
+	if i := strings.IndexByte(s, '\n'); i >= 0 {
+		return s[:i]
+	}
+	return s
+}
+
 // Step is one recorded action of a schedule. Schedules are explicit data: a
 // replay executes exactly these steps and never consults the PRNG.
 type Step struct {
@@ -131,6 +144,14 @@ func execStep(p Profile, w *World, st *Step, idx int) (v *Violation, herr error)
 	defer func() {
 		if x := recover(); x != nil {
 			if pe, ok := x.(*PanicError); ok {
+				for _, h := range AnalysedHalts {
+					if strings.Contains(firstLine(pe.Val), h) {
+						// a chain halt owned by the SDK, analysed in DESIGN §8: the history ends here
+						w.Halted = true
+						w.Stats.Probe("chain_halted_in_sdk:" + h)
+						return
+					}
+				}
 				herr = pe
 				return
 			}
@@ -177,6 +198,9 @@ func RunGenerate(p Profile, seed, run uint64, tier string) *RunResult {
 		}
 		if v != nil {
 			res.Violation = v
+			return res
+		}
+		if w.Halted {
 			return res
 		}
 	}
@@ -237,6 +261,9 @@ func RunReplay(p Profile, cfg Config, steps []Step) *RunResult {
 		}
 		if v != nil {
 			res.Violation = v
+			return res
+		}
+		if w.Halted {
 			return res
 		}
 	}
